@@ -251,6 +251,12 @@ def d_legacy_names(t):
     t[9]["element"] = "C"
 
 
+def d_sodium(t):
+    """A sodium ion appended to the last chain: component, atom and element are all spelled NA (a name, not a missing-value marker)."""
+    last = t[-1]
+    t.append(enumio.atom(max(a["serial"] for a in t) + 1, "NA", "NA", last["chain"], 301, "%.3f" % (float(last["x"]) + 9.0), "%.3f" % (float(last["y"]) + 9.0), last["z"], element="NA", record="HETATM", model=last["model"]))
+
+
 def d_noocc(t):
     t[4]["occ"] = None
 
@@ -276,7 +282,7 @@ def deviations():
     d += [d_models_zero_based, d_models_out_of_order, d_boundary_twin]
     # occupancies that differ in the second decimal only (after seed C08-l)
     d += [d_altloc("0.33", "0.34"), d_repeat("0.45", "0.48"), d_close("0.48", "0.45")]
-    d += [d_legacy_names]
+    d += [d_legacy_names, d_sodium]
     return d
 
 
